@@ -5,6 +5,7 @@
 # SPDX-License-Identifier: MIT
 """Parse bumpver.toml, setup.cfg or pyproject.toml files."""
 
+import os
 import re
 import enum
 import typing as typ
@@ -280,7 +281,9 @@ def _iter_glob_expanded_file_patterns(
 
         if filepaths:
             for filepath in filepaths:
-                yield str(filepath), raw_patterns
+                # NOTE: normalized, so that the path can be compared to those
+                #   reported by git/hg (pathlib keeps "docs/../README.md" as it is)
+                yield os.path.normpath(str(filepath)), raw_patterns
         else:
             logger.warning(f"Invalid config, no such file: {filepath_glob}")
             # fallback to treating it as a simple path
